@@ -265,12 +265,22 @@ def check_frame(ctx, length, op, masked, key, pat, prefix="", via_send=False):
 
     # ---- encode
     refused = False
+    # the application's payload object: bytes, or (a third of the binary / control frames each) a bytearray written once /
+    # a bytearray whose frame object is written twice (a relay or broadcast writes one frame to several peers).  Derived
+    # from the key so that old replay files keep their meaning
+    ptype = 0 if op == TEXT else key[0] % 3
+    pobj = bytearray(payload) if ptype else payload
+    wire2 = None
     try:
-        f = build_frame(op, payload, text, masked, key)
+        f = build_frame(op, pobj, text, masked, key)
         hdr = bytes(f.serializeHeader()) + bytes(f.serializeDataHeader())
         req = FakeRequest()
         writeFrameFactory(WebSocketTemporaryRingBuffer(req))(f)
         wire = b"".join(req.written)
+        if ptype == 2:
+            req2 = FakeRequest()
+            writeFrameFactory(WebSocketTemporaryRingBuffer(req2))(f)
+            wire2 = b"".join(req2.written)
     except ValueError as e:
         if oversize_control:
             refused = True
@@ -293,6 +303,15 @@ def check_frame(ctx, length, op, masked, key, pat, prefix="", via_send=False):
                           "%d bytes, payload part starts %s (application payload starts %s)" % (
                               what, len(wire), wire[len(ref_hdr):len(ref_hdr) + 8].hex(), len(ref_wire),
                               ref_wire[len(ref_hdr):len(ref_hdr) + 8].hex(), payload[:8].hex()), case)
+        if ptype:
+            ctx.label("frame-payload-bytearray" + ("-written-twice" if ptype == 2 else ""))
+            if bytes(pobj) != payload:
+                ctx.violation("ws-encode-mutates-payload", "%s: writeFrame changed the application's bytearray payload in place: it "
+                              "now starts %s, was %s (the frame object no longer is the frame that was written)" % (
+                                  what, bytes(pobj[:8]).hex(), payload[:8].hex()), case)
+            elif wire2 is not None and wire2 != ref_wire:
+                ctx.violation("ws-encode-payload", "%s: the same frame object written a second time gives %s.. (%d bytes), the RFC 6455 "
+                              "encoding is %s.. (%d bytes)" % (what, wire2[:14].hex(), len(wire2), ref_wire[:14].hex(), len(ref_wire)), case)
     if via_send and op == TEXT and not masked:
         # the path the server uses: handler.send(str) -> writeFrame on the connection's buffer
         conn = Conn()
